@@ -121,11 +121,21 @@ let handle (line : string) : string =
        | Some None -> "F"
        | Some (Some p) -> if c = "S64" then "T" else "T " ^ hex_of_z p)
   | "TA" :: mv :: qb :: recs ->
-      (* model of the bit-packed array of lm/trie.cc: record i occupies bits [i*tb, (i+1)*tb), tb = RequiredBits(max_vocab) + payload bits *)
+      (* BitPackedLongest = the record array of coq/C20/MiddleModel.v without a next field (m_nb = 0: C20_middle_array_refines_sorted_records
+         covers it): Insert each (word, payload), then Find every word in [0, n); Size = BaseSize(entries, max_vocab, payload bits) *)
       let max_vocab = z_of_hex mv and quant = z_of_hex qb in
-      let n = List.length recs in
+      let parsed = List.map (fun r -> match String.split_on_char ':' r with
+          | [p; w] -> ((z_of_hex w, z_of_hex p), Z0) | _ -> failwith "rec") recs in
+      let n = List.length parsed in
       let size = bitpacked_base_size (z_of_int n) max_vocab quant in
-      let vals = List.map (fun r -> match String.split_on_char ':' r with [p; _] -> hex_of_z (z_of_hex p) | _ -> "?") recs in
+      let m = { m_base = Z0; m_wb = bits_needed max_vocab; m_qb = quant; m_nb = Z0; m_max_vocab = max_vocab } in
+      let mem = mid_inserts m Z0 Z0 parsed in
+      let fuel = nat_of_int (n + 3) in
+      let vals = List.map (fun ((w, _), _) ->
+          match mid_find m fuel mem w Z0 (z_of_int n) with
+          | None -> "OUT-OF-FUEL"
+          | Some None -> "lost:" ^ hex_of_z w
+          | Some (Some (((_, pay), _), _)) -> hex_of_z pay) parsed in
       String.concat " " ((hex_of_z size ^ " guard-ok") :: vals)
   | "TM" :: "D" :: _bb :: mv :: qb :: recs ->
       (* BitPackedMiddle<DontBhiksha>: the extracted model (coq/C20/MiddleModel.v) over the generated bit-packing routines and the
